@@ -235,6 +235,18 @@ def tamper(case: DCase, rng, others=()):
         mk(J5(p, ek, iv, ct, b64u(rt[:-1])), "truncate-tag")
         mk(J5(p, ek, iv, ct, b64u(rt[: rng.randrange(0, len(rt))])), "truncate-tag")
         mk(J5(p, ek, iv, ct, b64u(rt + b"\x00")), "extend-tag")
+        # paired length faults: octets moved across the ciphertext/tag boundary (a one-shot AEAD API that takes
+        # ciphertext || tag would not notice; the received tag is then not 128 bits / not the tag of the received ciphertext)
+        rc = b64u_dec(ct)
+        if rc:
+            k = rng.randrange(1, min(len(rc), 8) + 1)
+            mk(J5(p, ek, iv, b64u(rc[:-1]), b64u(rc[-1:] + rt)), "move-1-octet-ciphertext-to-tag")
+            mk(J5(p, ek, iv, b64u(rc[:-k]), b64u(rc[-k:] + rt)), "move-octets-ciphertext-to-tag")
+            mk(J5(p, ek, iv, b"", b64u(rc + rt)), "move-whole-ciphertext-to-tag")
+        k = rng.randrange(1, len(rt)) if len(rt) > 1 else 1
+        mk(J5(p, ek, iv, b64u(rc + rt[:1]), b64u(rt[1:])), "move-1-octet-tag-to-ciphertext")
+        mk(J5(p, ek, iv, b64u(rc + rt[:k]), b64u(rt[k:])), "move-octets-tag-to-ciphertext")
+        mk(J5(p, ek, iv, b64u(rc + rt), b""), "move-whole-tag-to-ciphertext")
         mk(J5(p, ek, b64u(riv[:-1]), ct, tg), "truncate-iv")
         mk(J5(p, ek, b64u(riv + b"\x00"), ct, tg), "extend-iv")
         # the other end: leading octets cut off (a nonce API may left-pad a short nonce with zeros) / zeros prepended
@@ -273,6 +285,12 @@ def tamper(case: DCase, rng, others=()):
         mk(w(tag=flip(v["tag"].encode(), rng).decode()), "flip-tag")
         mk(w(tag=b64u(b64u_dec(v["tag"])[:-1]).decode()), "truncate-tag")
         mk(w(tag=b64u(b64u_dec(v["tag"]) + b"\x00").decode()), "extend-tag")
+        rc, rt = b64u_dec(v.get("ciphertext", "").encode()), b64u_dec(v["tag"].encode())
+        if rc:
+            k = rng.randrange(1, min(len(rc), 8) + 1)
+            mk(w(ciphertext=b64u(rc[:-k]).decode(), tag=b64u(rc[-k:] + rt).decode()), "move-octets-ciphertext-to-tag")
+        k = rng.randrange(1, len(rt)) if len(rt) > 1 else 1
+        mk(w(ciphertext=b64u(rc + rt[:k]).decode(), tag=b64u(rt[k:]).decode()), "move-octets-tag-to-ciphertext")
         if "aad" in v:
             mk(w(aad=flip(v["aad"].encode(), rng).decode()), "flip-aad")
             mk(w(aad=None), "drop-aad")
